@@ -32,7 +32,7 @@ fn md5hex(s: &str) -> String {
 }
 
 /// schemes whose sizes stay below one TLS record and that pad several packets
-fn gen_scheme_push(g: &mut Gen) -> String {
+pub fn gen_scheme_push(g: &mut Gen) -> String {
     let stop = g.range(3, 9);
     let mut s = format!("stop={}", stop);
     for line in 0..stop {
@@ -237,16 +237,18 @@ async fn run_session(plan: &Value) -> Outcome {
 struct Script {
     /// md5 announced by each new session, in connection order, and whether a push was sent to it
     announced: Vec<(String, bool)>,
+    /// padding0 length declared in the authentication preamble of each new session
+    preamble_pad: Vec<usize>,
     current: usize,
 }
 
-async fn run_client(plan: &Value) -> Outcome {
+pub async fn run_client(plan: &Value) -> Outcome {
     let mut out = Outcome::ok();
     let cs = plan["client_scheme"].as_str().unwrap_or("default");
     let client_f: Arc<PaddingFactory> = if cs == "default" { PaddingFactory::default() } else { factory(cs) };
     let schemes: Vec<String> = plan["server_schemes"].as_array().into_iter().flatten().filter_map(|s| s.as_str().map(|x| x.to_string())).collect();
     let garbage = plan["garbage_push"].as_bool().unwrap_or(false);
-    let state = Arc::new(Mutex::new(Script { announced: vec![], current: 0 }));
+    let state = Arc::new(Mutex::new(Script { announced: vec![], preamble_pad: vec![], current: 0 }));
     // scripted TLS server
     {
         let (state, schemes) = (state.clone(), schemes.clone());
@@ -291,7 +293,11 @@ async fn run_client(plan: &Value) -> Outcome {
                                         (schemes[std::cmp::min(g.current, schemes.len() - 1)].clone(), g.announced.is_empty())
                                     };
                                     let push = md5 != md5hex(&cur);
-                                    state.lock().unwrap().announced.push((md5, push));
+                                    {
+                                        let mut g = state.lock().unwrap();
+                                        g.announced.push((md5, push));
+                                        g.preamble_pad.push(l);
+                                    }
                                     if garbage && first {
                                         // an unparsable scheme first: must be ignored
                                         reply.extend(rc::encode(rc::UPDATE_PADDING, 0, b"this is not a scheme\n0=1-2"));
@@ -385,6 +391,23 @@ async fn run_client(plan: &Value) -> Outcome {
         }
     }
     let ann = state.lock().unwrap().announced.clone();
+    // the authentication preamble of every session carries the padding0 length given by line 0 of the
+    // very scheme that session announces (C05's preamble clause, for sessions opened after a push)
+    let pads = state.lock().unwrap().preamble_pad.clone();
+    let mut known: Vec<String> = vec![String::from_utf8_lossy(client_f.raw_scheme()).to_string()];
+    known.extend(schemes.iter().cloned());
+    for (i, ((md5, _), l)) in ann.iter().zip(pads.iter()).enumerate() {
+        if let Some(sch) = known.iter().find(|s| &md5hex(s) == md5) {
+            let ok = match scheme_line(sch, 0).unwrap_or_default().first() {
+                Some(Item::Range(a, b)) => (*l as i64) >= *a && (*l as i64) <= *b,
+                _ => *l == 0,
+            };
+            if !ok {
+                out.viol("shape", format!("preamble-padding-not-from-announced-scheme:session#{}", std::cmp::min(i, 2)), format!("session #{} announces the scheme with md5 {} but its authentication preamble declares padding0 = {}; line 0 of that scheme is {:?}", i, md5, l, scheme_line(sch, 0).unwrap_or_default().first()));
+                break;
+            }
+        }
+    }
     out.nontrivial = ann.len() >= 2;
     out.summary = json!({"mode": "client", "announced": ann.iter().map(|a| json!([a.0[..6.min(a.0.len())], a.1])).collect::<Vec<_>>(), "pushes": pushes_done, "default_touched": plan["default_touched"], "garbage_first": garbage});
     out
